@@ -129,6 +129,7 @@ macro_rules! fmt_invalid_digit {
 
         let base_suffix = NumberFormat::<FORMAT>::BASE_SUFFIX;
         let uncased_base_suffix = NumberFormat::<FORMAT>::CASE_SENSITIVE_BASE_SUFFIX;
+        let mut index = $iter.cursor();
         // Need to check for a base suffix, if so, return a valid value.
         // We can't have a base suffix at the first value (need at least
         // 1 digit).
@@ -148,16 +149,14 @@ macro_rules! fmt_invalid_digit {
             } else if is_suffix && !$iter.is_buffer_empty() {
                 // Haven't finished parsing, so we're going to call
                 // `invalid_digit!`. Need to ensure we include the
-                // base suffix in that.
-
-                // SAFETY: safe since the iterator is not empty, as checked
-                // in `$iter.is_buffer_empty()`. Adding in the check hopefully
-                // will be elided since it's a known constant.
-                unsafe { $iter.step_unchecked() };
+                // base suffix in that: the invalid byte is the one after
+                // it. The iterator is not stepped, since that byte may be
+                // a digit separator, which must never be stepped over.
+                index += 1;
             }
         }
         // Might have handled our base-prefix here.
-        $invalid_digit!($value, $iter.cursor(), $iter.current_count())
+        $invalid_digit!($value, index, $iter.current_count())
     }};
 }
 
